@@ -95,3 +95,15 @@ func TestTLS(t *testing.T) {
 	}
 	fmt.Printf("SCENARIOS-RUN %d\n", n)
 }
+
+// TestEntropy runs the attack witnesses of Entropy.tla against the real generator.
+func TestEntropy(t *testing.T) {
+	out := os.Getenv("VERIF_OUT")
+	if out == "" {
+		t.Skip("VERIF_OUT not set")
+	}
+	if err := runEntropy(out, os.Getenv("VERIF_TIER") == "thorough"); err != nil {
+		t.Fatal(err)
+	}
+	fmt.Println("SCENARIOS-RUN 1")
+}
